@@ -55,6 +55,11 @@ def gen_case(rng):
         assets = rng.sample(NAMES, rng.randint(1, 4))
         ops = []
         n = rng.choice([0, 1, 2, 3, 8, 15, 40, 70])
+        if rng.random() < 0.04:
+            # a year-long (and longer) lookback fed with more than a year of closes
+            lbs = sorted(set([rng.choice([252, 253, 260, 300]), rng.choice([5, 252])]))
+            assets = assets[:1]
+            n = rng.choice([300, 330])
         streams = {a: gen_prices(rng, n) for a in assets}
         for i in range(n):
             for a in assets:
